@@ -430,3 +430,150 @@ Section PhaseReplay.
     - intros H w2 _. injection H as <- <- <-. exists []. repeat split; constructor.
   Qed.
 End PhaseReplay.
+
+(** * Layer 3: the phase loop replayed on its own output world *)
+Section LoopReplay.
+  Variable force : bool.
+  Let c : cfg := {| c_flavor := FObjectSet; c_force := force |}.
+
+  (** A delegated phase the ObjectSet controller has nothing to write for: its phase object exists, is controlled
+      by the ObjectSet, its spec.paused is in sync, and the reference to it is already recorded. *)
+  Definition remote_ready (phs : list osphase) (s : oset) (rem : list (N * N)) (ph : phase) : Prop :=
+    let d := desired_phase s ph in
+    exists cur, find_phase phs (oi_kind (op_id d)) (oi_ns (op_id d)) (oi_name (op_id d)) = Some cur /\
+      controlled_by_uid (op_owners cur) (oi_uid (os_id s)) = true /\
+      op_paused cur = op_paused d /\
+      add_remote rem (oi_name (op_id d), oi_uid (op_id cur)) = rem.
+
+  Lemma remote_reconcile_ready sw s s' ph rem :
+    remote_ready (sw_phases sw) s rem ph ->
+    desired_phase s' ph = desired_phase s ph -> oi_uid (os_id s') = oi_uid (os_id s) ->
+    exists cur n, remote_reconcile sw s' ph rem = (sw, [SPhase (PGet n (Some cur))], rem, relay cur) /\
+                  remote_reconcile sw s ph rem = (sw, [SPhase (PGet n (Some cur))], rem, relay cur).
+  Proof.
+    intros (cur & Hf & Hc & Hp & Ha) Hd Hu. exists cur, (oi_name (op_id (desired_phase s ph))).
+    unfold remote_reconcile. cbv zeta. rewrite Hd, Hu, Hf, Hc. cbn [negb]. rewrite Ha, Hp, eqb_reflx. split; reflexivity.
+  Qed.
+
+  (** events of a loop that changed nothing *)
+  Definition quiet_lev (e : sev) : Prop :=
+    match e with SMember x => calm_ev x | SPhase (PGet _ _) => True | _ => False end.
+  Definition noop_lev (e : sev) : Prop :=
+    match e with SMember x => noop_ev x | SPhase (PGet _ _) => True | _ => False end.
+
+  Lemma quiet_members l : Forall calm_ev l -> Forall quiet_lev (map SMember l).
+  Proof. intros H. apply Forall_map. exact H. Qed.
+  Lemma noop_members l : Forall noop_ev l -> Forall noop_lev (map SMember l).
+  Proof. intros H. apply Forall_map. exact H. Qed.
+
+  Lemma with_w_self sw : with_w sw (sw_w sw) = sw.
+  Proof. destruct sw; reflexivity. Qed.
+
+  Lemma rpm_replay s ow prev phs : forall sw acc rem sw2 evs rem2 r,
+    ow_paused ow = false ->
+    NoDup (local_keys ow phs) ->
+    (forall ph p cu, In ph phs -> ph_class ph = false -> In p (ph_objects ph) ->
+                     lookup (key_of ow p) (w_store (sw_w sw)) = Some cu -> obj_wf Native (ow_id ow) cu) ->
+    (forall ph, In ph phs -> ph_class ph = true -> remote_ready (sw_phases sw) s rem ph) ->
+    reconcile_phases_m force sw s ow prev phs acc rem = (sw2, evs, rem2, r) ->
+    rem2 = rem /\ sw_phases sw2 = sw_phases sw /\ sw_sets sw2 = sw_sets sw /\ sw_nss sw2 = sw_nss sw /\
+    forall sw' s',
+      (forall k, In k (local_keys ow phs) -> lookup k (w_store (sw_w sw')) = lookup k (w_store (sw_w sw2))) ->
+      sw_phases sw' = sw_phases sw ->
+      (forall ph, desired_phase s' ph = desired_phase s ph) -> oi_uid (os_id s') = oi_uid (os_id s) ->
+      exists evs2, reconcile_phases_m force sw' s' ow prev phs acc rem = (sw', evs2, rem, r) /\
+                   Forall quiet_lev evs2 /\ (r <> MErr ErrInvalid -> Forall noop_lev evs2).
+  Proof.
+    induction phs as [|ph rest IH]; intros sw acc rem sw2 evs rem2 r Hpa Hnd Hwf Hrr H.
+    - cbn in H. injection H as <- <- <- <-. repeat split; try reflexivity.
+      intros sw' s' _ _ _ _. exists []. cbn. repeat split; constructor.
+    - rewrite rpm_cons in H. destruct (ph_class ph) eqn:Ecl.
+      + (* delegated *)
+        pose proof (Hrr ph (or_introl eq_refl) Ecl) as Hready.
+        destruct (remote_reconcile_ready sw s s ph rem Hready eq_refl eq_refl) as (cur & n & _ & Hrec).
+        rewrite Hrec in H.
+        rewrite local_keys_cons_remote in * by exact Ecl.
+        destruct (relay cur) as [|active fl] eqn:Er; [exfalso; now apply (relay_not_err cur)|].
+        destruct fl.
+        * injection H as <- <- <- <-. repeat split; try reflexivity.
+          intros sw' s' _ Hph Hd Hu. rewrite rpm_cons, Ecl.
+          rewrite <- Hph in Hready.
+          destruct (remote_reconcile_ready sw' s s' ph rem Hready (Hd ph) Hu) as (cur' & n' & Hrec' & Hrec2).
+          rewrite Hph in Hready.
+          assert (cur' = cur /\ n' = n) as [-> ->].
+          { unfold remote_reconcile in Hrec, Hrec2. cbv zeta in Hrec, Hrec2. rewrite Hph in Hrec2.
+            destruct Hready as (cu & Hf & Hc & Hp & Ha). rewrite Hf, Hc in Hrec, Hrec2. cbn [negb] in Hrec, Hrec2.
+            rewrite Ha, Hp, eqb_reflx in Hrec, Hrec2. injection Hrec as Hn Hcu. injection Hrec2 as Hn' Hcu'. split; congruence. }
+          rewrite Hrec', Er. eexists. split; [reflexivity|]. split; [|intros _]; (constructor; [exact I|constructor]).
+        * destruct (reconcile_phases_m force sw s ow prev rest (acc ++ active) rem) as [[[swz ez] remz] rz] eqn:E2.
+          injection H as <- <- <- <-.
+          destruct (IH sw (acc ++ active) rem swz ez remz rz Hpa Hnd
+                       (fun q p cu Hq => Hwf q p cu (or_intror Hq)) (fun q Hq => Hrr q (or_intror Hq)) E2)
+            as (Hrem & Hph2 & Hsets2 & Hnss2 & Hnext).
+          split; [exact Hrem|]. split; [exact Hph2|]. split; [exact Hsets2|]. split; [exact Hnss2|].
+          intros sw' s' Hl Hph Hd Hu. rewrite rpm_cons, Ecl.
+          rewrite <- Hph in Hready.
+          destruct (remote_reconcile_ready sw' s s' ph rem Hready (Hd ph) Hu) as (cur' & n' & Hrec' & Hrec2).
+          rewrite Hph in Hready.
+          assert (cur' = cur /\ n' = n) as [-> ->].
+          { unfold remote_reconcile in Hrec, Hrec2. cbv zeta in Hrec, Hrec2. rewrite Hph in Hrec2.
+            destruct Hready as (cu & Hf & Hc & Hp & Ha). rewrite Hf, Hc in Hrec, Hrec2. cbn [negb] in Hrec, Hrec2.
+            rewrite Ha, Hp, eqb_reflx in Hrec, Hrec2. injection Hrec as Hn Hcu. injection Hrec2 as Hn' Hcu'. split; congruence. }
+          rewrite Hrec', Er.
+          destruct (Hnext sw' s' Hl Hph Hd Hu) as (ez2 & -> & Hq & Hn).
+          eexists. split; [reflexivity|]. split; [constructor; [exact I|exact Hq]|].
+          intros Hne. constructor; [exact I|now apply Hn].
+      + (* local *)
+        rewrite local_keys_cons_local in * by exact Ecl. fold c in H.
+        destruct (reconcile_phase c idw (sw_w sw) ow prev false (ph_objects ph)) as [[w1 e1] r1] eqn:E1.
+        pose proof (rec_phase_replay c ow prev false (ph_objects ph) (sw_w sw) w1 e1 r1 Hpa (NoDup_app_l _ _ Hnd)
+                      (fun p cu Hp => Hwf ph p cu (or_introl eq_refl) Ecl Hp) E1) as Hrep.
+        (* the replay of this phase in a world that agrees with [wx] on the phase's keys *)
+        assert (Hstep : forall sw' (wx : world),
+                  (forall k, In k (phase_keys ow ph) -> lookup k (w_store (sw_w sw')) = lookup k (w_store wx)) ->
+                  (forall k, In k (phase_keys ow ph) -> lookup k (w_store wx) = lookup k (w_store w1)) ->
+                  exists e1', reconcile_phase c idw (sw_w sw') ow prev false (ph_objects ph) = (sw_w sw', e1', r1) /\
+                              Forall calm_ev e1' /\ (r1 <> PhErr ErrInvalid -> Forall noop_ev e1')).
+        { intros sw' wx Ha Hb. apply Hrep. intros p Hp.
+          assert (Hk : In (key_of ow p) (phase_keys ow ph)) by (unfold phase_keys; now apply in_map).
+          now rewrite (Ha _ Hk), (Hb _ Hk). }
+        destruct r1 as [e|vs|a f]; cbv beta iota zeta in H.
+        * injection H as <- <- <- <-. repeat split; try reflexivity.
+          intros sw' s' Hl Hph Hd Hu. rewrite rpm_cons, Ecl. fold c.
+          destruct (Hstep sw' w1) as (e1' & -> & Hc1 & Hn1); [intros k Hk; apply Hl, in_or_app; now left|reflexivity|].
+          rewrite with_w_self. eexists. split; [reflexivity|]. split; [now apply quiet_members|].
+          intros Hne. apply noop_members, Hn1. intros Heq. apply Hne. now injection Heq as ->.
+        * injection H as <- <- <- <-. repeat split; try reflexivity.
+          intros sw' s' Hl Hph Hd Hu. rewrite rpm_cons, Ecl. fold c.
+          destruct (Hstep sw' w1) as (e1' & -> & Hc1 & Hn1); [intros k Hk; apply Hl, in_or_app; now left|reflexivity|].
+          rewrite with_w_self. eexists. split; [reflexivity|]. split; [now apply quiet_members|].
+          intros _. apply noop_members, Hn1. discriminate.
+        * destruct f as [|f0 fs].
+          2:{ injection H as <- <- <- <-. repeat split; try reflexivity.
+              intros sw' s' Hl Hph Hd Hu. rewrite rpm_cons, Ecl. fold c.
+              destruct (Hstep sw' w1) as (e1' & -> & Hc1 & Hn1); [intros k Hk; apply Hl, in_or_app; now left|reflexivity|].
+              cbv zeta. rewrite with_w_self. eexists. split; [reflexivity|]. split; [now apply quiet_members|].
+              intros _. apply noop_members, Hn1. discriminate. }
+          set (acc' := acc ++ map fst (filter (fun ko => is_controller Native (ow_id ow) (snd ko)) a)) in *.
+          destruct (reconcile_phases_m force (with_w sw w1) s ow prev rest acc' rem) as [[[swz ez] remz] rz] eqn:E2.
+          injection H as <- <- <- <-.
+          assert (Hwf1 : forall q p cu, In q rest -> ph_class q = false -> In p (ph_objects q) ->
+                           lookup (key_of ow p) (w_store (sw_w (with_w sw w1))) = Some cu -> obj_wf Native (ow_id ow) cu).
+          { intros q p cu Hq Hqc Hp Hlk. apply (Hwf q p cu (or_intror Hq) Hqc Hp). rewrite <- Hlk. cbn [sw_w with_w]. symmetry.
+            eapply (rec_phase_frame force); [exact E1|]. intros p1 Hp1 Heq.
+            apply (NoDup_app_disj _ _ (key_of ow p1) Hnd); [unfold phase_keys; now apply in_map|].
+            rewrite Heq. apply (in_local_keys ow q rest); auto. unfold phase_keys. now apply in_map. }
+          destruct (IH (with_w sw w1) acc' rem swz ez remz rz Hpa (NoDup_app_r _ _ Hnd) Hwf1
+                       (fun q Hq => Hrr q (or_intror Hq)) E2) as (Hrem & Hph2 & Hsets2 & Hnss2 & Hnext).
+          split; [exact Hrem|]. split; [exact Hph2|]. split; [exact Hsets2|]. split; [exact Hnss2|].
+          intros sw' s' Hl Hph Hd Hu. rewrite rpm_cons, Ecl. fold c.
+          destruct (rpm_inv force s ow prev rest _ _ _ _ _ _ _ E2) as (_ & _ & _ & _ & Hfr & _).
+          destruct (Hstep sw' swz.(sw_w)) as (e1' & -> & Hc1 & Hn1).
+          { intros k Hk. apply Hl, in_or_app. now left. }
+          { intros k Hk. rewrite Hfr; [reflexivity|]. now apply (NoDup_app_disj _ _ k Hnd). }
+          cbv zeta. fold acc'. rewrite with_w_self.
+          destruct (Hnext sw' s' (fun k Hk => Hl k (in_or_app _ _ _ (or_intror Hk))) Hph Hd Hu) as (ez2 & -> & Hq & Hn).
+          eexists. split; [reflexivity|]. split; [apply Forall_app; split; [now apply quiet_members|exact Hq]|].
+          intros Hne. apply Forall_app. split; [apply noop_members, Hn1; discriminate|now apply Hn].
+  Qed.
+End LoopReplay.
